@@ -338,6 +338,13 @@ def project(sn, it, volume, mass, density, center, inertia, area_faces, area, fr
         tmp = Snapper()
         o["I"] = tmp.mat("inertia", inertia, 240 * dd)
         o["ilat"] = tmp.off == ""
+        # this tensor enters TLC's 32-bit arithmetic as 2 D I and I + 10 m6 M(2 t - oc2): a value beyond that
+        # range counts as off the lattice of exact values (every exact value is far inside it)
+        big = max(abs(x) for row in o["I"] for x in row)
+        pax = max([3 * max(abs(2 * a - b) for a, b in zip(fr["t"], it["oc2"])) ** 2
+                   for fr, _ in frames if fr["rd"] * fr["td"] == 1] + [0])
+        if big * max(2 * abs(v6), 1) >= 2 ** 31 or big + 10 * abs(o["mass6"]) * pax >= 2 ** 30:
+            o["ilat"] = False
     elif v6 != 0:
         o["cm"] = sn.vec("center_mass", center, 4 * v6)
         o["I"] = sn.mat("inertia", inertia, 480 * v6 * dd)
@@ -976,8 +983,9 @@ def main(argv):
                     T.add("area_total")
                 for f in o["frames"]:
                     T.add("frames")
-                    T.add("frames_rational_rotation", 1 if f["rd"] > 1 else 0)
-                    T.add("frames_fractional_origin", 1 if f["td"] > 1 else 0)
+                    # (a frame inertia is judged when the volume is not zero, or under an override by the law)
+                    T.add("frames_rational_rotation", 1 if f["rd"] > 1 and o["vol6"] != 0 else 0)
+                    T.add("frames_fractional_origin", 1 if f["td"] > 1 and o["vol6"] != 0 else 0)
                     if f["rd"] == 1:
                         T.note("rot", tuple(map(tuple, f["R"])))
                     else:
